@@ -818,7 +818,9 @@ class Processor:
                                 else None)
                 is_ymk_anchor = (
                     compare_node is not None
-                    and isinstance(compare_node, dict))
+                    and isinstance(compare_node, dict)
+                    and not (parentref in parent
+                             and parent[parentref] is node))
 
                 if (is_ymk_anchor
                     and isinstance(parent, CommentedMap)
